@@ -866,7 +866,10 @@ func (f *fragment) unprotectedClearRow(rowID uint64) (changed bool, err error) {
 		// to return true if any existing data was removed.
 		if cont := f.storage.Containers.Get(k); cont != nil {
 			f.storage.Containers.Remove(k)
-			changed = true
+			// an empty container left behind by earlier clears is not data.
+			if cont.N() > 0 {
+				changed = true
+			}
 		}
 	}
 
@@ -2681,6 +2684,12 @@ func (f *fragment) unprotectedRows(start uint64, filters ...rowFilter) []uint64 
 	// Loop over the existing containers.
 	for i.Next() {
 		key, c := i.Value()
+
+		// a container emptied by clears or removals holds no bits, so it
+		// does not make its row exist.
+		if c.N() == 0 {
+			continue
+		}
 
 		// virtual row for the current container
 		vRow := key >> shardVsContainerExponent
